@@ -172,6 +172,7 @@ c.modifies("G.sem_released")
 c.assumes("A-user")
 io = M.invariant("Queue._feed", 0, "while True:")
 io.inv("write-lock-free-at-loop-head", "not held(writelock)")
+io.inv("descriptor-marks-untouched", "G.fd_inheritable == old(G.fd_inheritable) and seq(as_(G.spawning_popen, 'Popen')._fds) == old(seq(as_(G.spawning_popen, 'Popen')._fds))")
 SENT_OBJ = "log_arg('popleft', -1, 1)"
 io.iter_post("error-path/slot-released-once-then-callback-with-the-faulty-object",
              "tail(implies(count_events('user_call', lambda f: f is onerror) >= 1, "
@@ -184,6 +185,7 @@ io.iter_post("error-path/a-failed-send-is-always-reported",
 io.iter_post("error-path/write-lock-released", "not held(writelock)", prop="C04")
 ii = M.invariant("Queue._feed", 1, "while True:")
 ii.inv("write-lock-free-between-objects", "not held(writelock)")
+ii.inv("descriptor-marks-untouched", "G.fd_inheritable == old(G.fd_inheritable) and seq(as_(G.spawning_popen, 'Popen')._fds) == old(seq(as_(G.spawning_popen, 'Popen')._fds))")
 ii.iter_post("one-object-one-pickle-one-send",
              "log_count('popleft') == 1 and log_count('call:dumps') == 1 and log_arg('call:dumps', 0, 1) is log_arg('popleft', 0, 1) and "
              "count_events('user_call', lambda f: f is send_bytes) == 1 and "
